@@ -182,19 +182,8 @@ theorem C06_units_agree :
 
 /-! ## Non-vacuity: the contract is satisfiable, the theorems apply to concrete data -/
 
-/-- a brute-force "tree" — it satisfies the contract, so `TreeOK` is not vacuous -/
-def bruteTree {P α : Type} [LE α] [DecidableRel (α := α) (· ≤ ·)] (dist : P → P → α) :
-    TreeFn P α := fun build qs rt =>
-  let ans := qs.map (fun q => specRow dist build q rt)
-  (ans.map (·.map Prod.fst), ans.map (·.map Prod.snd))
-
-theorem bruteTree_ok {P α : Type} [LE α] [DecidableRel (α := α) (· ≤ ·)] (dist : P → P → α) :
-    TreeOK dist (bruteTree dist) := by
-  intro build qs rt
-  refine ⟨qs.map (fun q => specRow dist build q rt), rfl, rfl, ?_⟩
-  rw [List.forall₂_map_left_iff, List.forall₂_same]
-  intro q _
-  exact List.Perm.refl _
+-- `bruteTree` and `bruteTree_ok : TreeOK dist (bruteTree dist)` (Proofs/Lemmas/GeoIndex.lean): a brute-force
+-- "tree" satisfies the contract, so `TreeOK` is not vacuous
 
 example : ValidShuffle 4 (some [2, 0, 3, 1]) := by
   show [2, 0, 3, 1].Perm (List.range 4); decide
